@@ -42,7 +42,8 @@ def run2 (g : GOracle) (j : Json) : Json :=
     let obs := J.get j "obs"
     let strict := J.bool (J.get j "strict")
     let io := J.str (J.get obs "outcome")
-    let specGeneric := io != "panic" && io != "crash" && io != "timeout" && implWellTyped obs
+    let c14 := if J.bool (J.get j "c14") then c14spec j obs else (true, "")
+    let specGeneric := io != "panic" && io != "crash" && io != "timeout" && implWellTyped obs && c14.1
     if io == "notloaded" then
       -- the model's check pass must reject it too (same traversal; any registered function is accepted)
       J.obj [("id", J.get j "id"), ("agree", true), ("spec", specGeneric), ("note", "")]
@@ -62,6 +63,6 @@ def run2 (g : GOracle) (j : Json) : Json :=
           if diff2 (runModel2 g l code) obs l.hasSig == "" then return ("", n)
         return (d0, n)
       let agree := d == ""
-      J.obj [("id", J.get j "id"), ("agree", agree), ("spec", specGeneric && (agree || !strict)), ("note", d), ("orders", tried)]
+      J.obj [("id", J.get j "id"), ("agree", agree), ("spec", specGeneric && (agree || !strict)), ("note", if !c14.1 then c14.2 ++ " | " ++ d else d), ("orders", tried)]
 
 end DrvRun2
